@@ -1003,6 +1003,15 @@ def large_specs():
     wps = [{"name": "cell", "cap": 3.0, "targets": [0, 1, 2], "facilities": [{"name": "robot", "id": "robot%d" % i, "skills": {"weld": 1.0}, "cost": 2.0} for i in range(3)]}]
     ws = [{"name": "apprentice%d" % i, "skills": {"weld": 0.5}, "cost": 1.0} for i in range(4)] + [{"name": "welder%d" % i, "skills": {"weld": 1.0 + 0.1 * i}, "fskills": {"robot": 1.0}, "cost": 2.0} for i in range(8)]
     out.append({"tasks": tasks, "links": [], "components": comps, "workplaces": wps, "teams": [{"name": "TM0", "targets": [0, 1, 2], "workers": ws}], "label": "large:welders12-apprentices-first"})
+    # (L9) twelve machine tasks in a chain (about 55 steps), two machines of different rates taking turns, two operators of different rates
+    tasks = [{"name": "S%02d" % i, "work": float(3 + (i * 2) % 4), "nf": True} for i in range(12)]
+    comps = [{"name": "U%02d" % i, "tasks": [i], "space": 1.0} for i in range(12)]
+    wps = [{"name": "line", "cap": 2.0, "targets": list(range(12)), "facilities": [{"name": "MA", "skills": {"S%02d" % i: 1.0 for i in range(0, 12, 2)}, "cost": 1.0},
+                                                                                  {"name": "MB", "skills": {"S%02d" % i: 1.0 for i in range(1, 12, 2)}, "cost": 3.0}]}]
+    ws = [{"name": "opA", "skills": {"S%02d" % i: 1.0 for i in range(0, 12, 3)}, "fskills": {"MA": 1.0, "MB": 1.0}, "cost": 2.0},
+          {"name": "opB", "skills": {"S%02d" % i: 1.0 for i in range(12) if i % 3}, "fskills": {"MA": 1.0, "MB": 1.0}, "cost": 5.0}]
+    out.append({"tasks": tasks, "links": [[i, i + 1, "FS"] for i in range(11)], "components": comps, "workplaces": wps, "teams": [{"name": "TM0", "targets": list(range(12)), "workers": ws}],
+                "label": "large:machine-chain12"})
     return out
 
 
@@ -1051,4 +1060,17 @@ def sectioned_workplace_specs():
                         "teams": [{"name": "crew", "targets": [0, 1, 2], "workers": [{"name": "fitter", "skills": {"assemble": 1.0}, "fskills": {"rig": 1.0}, "cost": 1.0},
                                                                                   {"name": "machinist", "skills": {"cut": 1.0, "inspect": 1.0}, "fskills": {"cnc": 1.0, "rig": 1.0}, "cost": 1.0}]}],
                         "label": "sectioned-workplace:%s:%s" % (asm, "bay-in-hall" if parent is not None else "separate")})
+    return out
+
+
+def waves_specs():
+    """a shop with room, machines and operators for k blocks and 2k blocks of equal work: the blocks go through in waves, a whole wave finishing in one step"""
+    out = []
+    for k, solo in ((3, True), (3, False), (4, True)):
+        n = 2 * k
+        tasks = [{"name": "paint", "id": "paint%d" % i, "work": 2.0, "nf": True} for i in range(n)]
+        comps = [{"name": "block%d" % i, "tasks": [i], "space": 1.0} for i in range(n)]
+        wps = [{"name": "shop", "cap": float(k), "targets": list(range(n)), "facilities": [{"name": "booth", "id": "booth%d" % i, "skills": {"paint": 1.0}, "solo": solo, "cost": 1.0} for i in range(k)]}]
+        ws = [{"name": "painter%d" % i, "skills": {"paint": 1.0}, "fskills": {"booth": 1.0}, "solo": solo, "cost": 1.0} for i in range(k)]
+        out.append({"tasks": tasks, "links": [], "components": comps, "workplaces": wps, "teams": [{"name": "TM0", "targets": list(range(n)), "workers": ws}], "label": "waves:%d:%s" % (k, "solo" if solo else "shared")})
     return out
